@@ -10,6 +10,9 @@ from ..core import VERIF
 from . import c05
 
 EXPLANATION = """
+[ROUND-TRIP, sized symbolic data] script(args) is evaluated on opcode names and data items that are arbitrary byte strings of fixed lengths (1/2/75/76/77/255/256/520/65535/65536;
+every length 1..600 in the thorough tier), its result is disassembled by decode_script's summary, which must return the same names (up to aliases sharing a byte) and items, and
+re-assembling that must give the same bytes; every defined opcode name alone; witness stacks of 0..20 items with item lengths across 252/253/65535/65536 followed by arbitrary bytes.
 [REGION] script() is evaluated with the data item's length bound to one representative of every region cut by its own
 constants and by the protocol's (0, 1, 75/76, 255/256, 65535/65536, 2^32-1/2^32): the emitted push prefix must be the
 shortest push operation with an exact little-endian length, or a refusal at 2^32. [REGION+TILE] decode_script's loop body
@@ -271,3 +274,5 @@ def run(ctx):
     check_builders(ctx)
     c05.check_writer(ctx, "C13.3")
     c05.check_reader(ctx, "C13.3")
+    from . import rt
+    rt.check_script_roundtrip(ctx, "C13.5", OPCODES)
